@@ -213,6 +213,9 @@ func (w *World) Verify(c *Contract) (res *TargetResult) {
 			x.note("method receivers are assumed non-nil")
 		}
 	}
+	for _, id := range c.Counts {
+		x.setCounter(heap, id, bvLit(0, 64)) // ghost call counters start at zero
+	}
 	entry := heap.clone()
 	for _, r := range c.Requires {
 		t := x.evalClause(nil, r, heap, entry, args, nil, nil)
@@ -406,7 +409,7 @@ func (x *Exec) frameObligations(f *frame, c *Contract, entry, final *Heap, args 
 	sort.Strings(keys)
 	for _, k := range keys {
 		fe := final.m[k]
-		if strings.HasPrefix(k, "box:") {
+		if strings.HasPrefix(k, "box:") || strings.HasPrefix(k, "ghost:") {
 			continue
 		}
 		et := x.hget(entry, k, fe.sort, fe.idx)
